@@ -616,6 +616,15 @@ impl<Store: StorageData> DbImpl<Store> {
             self.aliases.remove_key(&mut self.storage, &old_alias)?;
         }
 
+        if let Some(holder) = self.aliases.value(&self.storage, alias)?
+            && holder != db_id
+        {
+            self.undo_stack.push(Command::InsertAlias {
+                id: holder,
+                alias: alias.clone(),
+            });
+        }
+
         self.undo_stack.push(Command::RemoveAlias {
             alias: alias.clone(),
         });
